@@ -145,8 +145,8 @@ K IT k_left_from_right(IT const* e, IT const* idx) { M_right r(mkext<EXT>(e)); M
 K IT k_right_from_left(IT const* e, IT const* idx) { M_left l(mkext<EXT>(e)); M_right m(l); return call(m, idx); }
 #endif
 
-// ---------------------------------------------------------------- layout_stride (required_span_size / is_exhaustive / operator== / converting
-// constructors are declared but not defined on the pinned tree: not callable, reported as a defect)
+// ---------------------------------------------------------------- layout_stride (is_exhaustive / operator== / converting constructors are declared
+// but not defined: not callable, reported as a defect; required_span_size() is defined since cbed08e)
 using M_stride = etl::layout_stride::mapping<EXT>;
 #if RANK > 0
 static M_stride mkstride(IT const* e, IT const* s) { return M_stride(mkext<EXT>(e), etl::span<IT const, R>(s, R)); }
@@ -170,9 +170,7 @@ K unsigned k_stride_flags()
     return unsigned(M_stride::is_unique()) | unsigned(M_stride::is_strided()) << 2 | unsigned(M_stride::is_always_unique()) << 3
          | unsigned(M_stride::is_always_exhaustive()) << 4 | unsigned(M_stride::is_always_strided()) << 5;
 }
-#ifdef C19_STRIDE_REQ_DEFINED
 K IT k_stride_req(IT const* e, IT const* s) { return mkstride(e, s).required_span_size(); }
-#endif
 
 // ---------------------------------------------------------------- linalg::layout_transpose (rank 2)
 #if RANK == 2
@@ -335,5 +333,52 @@ K void k_sub_pair(IT const* e, IT lo, IT hi, sz* orank, sz* ostatic, IT* oext)
     auto r = etl::submdspan_extents(mkext<EXT>(e), etl::pair<IT, IT>{lo, hi});
     using RT = decltype(r);
     *orank = RT::rank(); ostatic[0] = RT::static_extent(0); oext[0] = r.extent(0);
+}
+#endif
+
+// ---------------------------------------------------------------- mdarray over a strided mapping and a size-constructible container
+// Minimal container for mdarray: constructible from (n) and (n, value); holds exactly n elements (capacity MDAS_MAX) and traps on every access at an
+// index >= n, so each access mdarray makes is checked against exactly the size mdarray asked for. (A block of symbolic size per container made the
+// queries 20x slower; the fixed buffer + explicit bound check decides the same obligation.)
+#if RANK > 0
+#ifndef MDAS_MAX
+#define MDAS_MAX 16
+#endif
+struct exact_ctr {
+    using value_type      = ELT;
+    using reference       = ELT&;
+    using const_reference = ELT const&;
+    explicit exact_ctr(sz n) : _n(n) { if (n > MDAS_MAX) { __builtin_trap(); } }   // elements left indeterminate
+    exact_ctr(sz n, ELT const& v) : _n(n) { if (n > MDAS_MAX) { __builtin_trap(); } for (sz i = 0; i < n; ++i) { _buf[i] = v; } }
+    [[nodiscard]] auto begin() noexcept -> ELT* { return _buf; }
+    [[nodiscard]] auto begin() const noexcept -> ELT const* { return _buf; }
+    [[nodiscard]] auto cbegin() const noexcept -> ELT const* { return _buf; }
+    [[nodiscard]] auto size() const noexcept -> sz { return _n; }
+    [[nodiscard]] auto operator[](sz i) noexcept -> ELT& { if (i >= _n) { __builtin_trap(); } return _buf[i]; }
+    [[nodiscard]] auto operator[](sz i) const noexcept -> ELT const& { if (i >= _n) { __builtin_trap(); } return _buf[i]; }
+    ELT _buf[MDAS_MAX];
+    sz _n;
+};
+using MDAS = etl::mdarray<ELT, EXT, etl::layout_stride, exact_ctr>;
+// out[0..4]: container sizes chosen by mdarray(mapping, value) and mdarray(mapping), size(), required_span_size() of the stored mapping, container_data();
+// if acc: out[5..10] element access through both objects: offsets relative to container_data(), the value read through a(i...), a write through b(i...)
+K void k_mdas(IT const* e, IT const* s, IT const* idx, bool acc, ELT val, sz* out)
+{
+    MDAS a(mkstride(e, s), val);
+    MDAS b(mkstride(e, s));
+    out[0] = a.container_size(); out[1] = b.container_size(); out[2] = sz(a.size()); out[3] = sz(a.mapping().required_span_size());
+    out[4] = sz(etl::as_const(a).container_data() - a.container_data());
+    if (acc) {
+        [&]<sz... I>(etl::index_sequence<I...>) {
+            out[5] = sz(&a(idx[I]...) - a.container_data());
+            out[6] = sz(&b(idx[I]...) - b.container_data());
+            out[7] = sz(a(idx[I]...) == val);
+            b(idx[I]...) = ELT(5);
+            out[8] = sz(etl::as_const(b)(idx[I]...) == ELT(5));
+            auto v = a.to_mdspan();
+            out[9] = sz(&v(idx[I]...) - a.container_data());
+        }(SQ{});
+        out[10] = sz(&a[etl::span<IT const, R>(idx, R)] - a.container_data());
+    }
 }
 #endif
